@@ -397,6 +397,8 @@ def static_assumptions(prop, mine, results):
     for c in mine:
         if c.assumed:
             out.append(f"assumed contract of dependency: {c.target} ({c.note})" if c.note else f"assumed contract of dependency: {c.target}")
+        for a_ in getattr(c, "assumes", ()) or ():
+            out.append(f"{c.target}: {a_}")
     inl = set()
     for r in results:
         if r.get("ok"):
